@@ -77,3 +77,67 @@ fn c02_guard_cmp_wrong_fails() {
     let b = Vec2::<i8>::new(kani::any(), kani::any());
     assert!(a.cmplt(&b).x == (a.y < b.y));
 }
+
+// ---- boolean reductions of numeric vectors: reduce_and == every element is non-zero, reduce_or == some element is non-zero
+// (one concrete impl per element type in vek: all 8 integer types, their Wrapping forms, f32, f64, bool), every input
+use core::num::Wrapping;
+macro_rules! bool_red_one {
+    ($V:ident, $n:expr, w $I:ty) => {{
+        let raw: [$I; $n] = kani::any();
+        let arr: [Wrapping<$I>; $n] = raw.map(Wrapping);
+        let v = $V::<Wrapping<$I>>::from(arr);
+        let mut all = true; let mut any = false;
+        let mut i = 0;
+        while i < $n { if arr[i].0 == 0 { all = false; } else { any = true; } i += 1; }
+        assert!(v.reduce_and() == all);
+        assert!(v.reduce_or() == any);
+    }};
+    ($V:ident, $n:expr, $T:ty, $zero:expr) => {{
+        let arr: [$T; $n] = kani::any();
+        let v = $V::<$T>::from(arr);
+        let mut all = true; let mut any = false;
+        let mut i = 0;
+        while i < $n { if arr[i] == $zero { all = false; } else { any = true; } i += 1; }
+        assert!(v.reduce_and() == all);
+        assert!(v.reduce_or() == any);
+    }};
+}
+macro_rules! bool_reductions {
+    ($h:ident, $V:ident, $n:expr, $uw:expr) => {
+        #[kani::proof]
+        #[kani::unwind($uw)]
+        fn $h() {
+            bool_red_one!($V, $n, i8, 0);  bool_red_one!($V, $n, u8, 0);  bool_red_one!($V, $n, i16, 0); bool_red_one!($V, $n, u16, 0);
+            bool_red_one!($V, $n, i32, 0); bool_red_one!($V, $n, u32, 0); bool_red_one!($V, $n, i64, 0); bool_red_one!($V, $n, u64, 0);
+            bool_red_one!($V, $n, w i8);  bool_red_one!($V, $n, w u8);  bool_red_one!($V, $n, w i16); bool_red_one!($V, $n, w u16);
+            bool_red_one!($V, $n, w i32); bool_red_one!($V, $n, w u32); bool_red_one!($V, $n, w i64); bool_red_one!($V, $n, w u64);
+            bool_red_one!($V, $n, f32, 0.0); bool_red_one!($V, $n, f64, 0.0);
+            bool_red_one!($V, $n, bool, false);
+        }
+    };
+}
+macro_rules! bool_reductions_wide {
+    ($h:ident, $V:ident, $n:expr, $uw:expr) => {
+        #[kani::proof]
+        #[kani::unwind($uw)]
+        fn $h() { bool_red_one!($V, $n, i32, 0); bool_red_one!($V, $n, w u8); bool_red_one!($V, $n, f32, 0.0); bool_red_one!($V, $n, bool, false); }
+    };
+}
+bool_reductions!(c02_bool_reductions_vec2, Vec2, 2, 4);
+bool_reductions!(c02_bool_reductions_vec3, Vec3, 3, 5);
+bool_reductions!(c02_bool_reductions_vec4, Vec4, 4, 6);
+bool_reductions!(c02_bool_reductions_extent2, Extent2, 2, 4);
+bool_reductions!(c02_bool_reductions_extent3, Extent3, 3, 5);
+bool_reductions!(c02_bool_reductions_rgb, Rgb, 3, 5);
+bool_reductions!(c02_bool_reductions_rgba, Rgba, 4, 6);
+bool_reductions!(c02_bool_reductions_uv, Uv, 2, 4);
+bool_reductions!(c02_bool_reductions_uvw, Uvw, 3, 5);
+bool_reductions_wide!(c02_bool_reductions_vec8, Vec8, 8, 10);
+bool_reductions_wide!(c02_bool_reductions_vec16, Vec16, 16, 18);
+bool_reductions_wide!(c02_bool_reductions_vec32, Vec32, 32, 34);
+bool_reductions_wide!(c02_bool_reductions_vec64, Vec64, 64, 66);
+#[kani::proof]
+fn c02_guard_bool_reduction_wrong_fails() {
+    let v = Vec2::<i32>::new(kani::any(), kani::any());
+    assert!(v.reduce_and() == ((v.x & v.y) != 0));
+}
